@@ -1,5 +1,5 @@
 import JominiModel.Proofs.TextTapeInv
-import JominiModel.Proofs.TextTapeCut
+import JominiModel.Proofs.TextTapeCutLex
 /-
 C06 (text half), growth, scalar clauses: every scalar on the tape is the sub-slice of the input at
 its offset and starts strictly after the previous scalar's start.
